@@ -343,6 +343,8 @@ class Evaluator:
         if k == "cindex":
             if v[0] == "bytes" and not e[2]:
                 return mk_int(v[1][e[1]], "u8")
+            if v[0] == "array":
+                return v[1][e[1]] if not e[2] else v[1][len(v[1]) - e[1]]
             return ("proj", v, e)
         if k == "subslice":
             if v[0] == "bytes":
